@@ -21,7 +21,12 @@ Kinds == {"socket", "file", "pipe"}
 (* kinds of descriptors 3, 4, 5: at most one is not a listening socket *)
 KindSeqs == {<<"socket", "socket", "socket">>} \cup
             {[i \in 1..3 |-> IF i = p THEN k ELSE "socket"] : p \in 1..3, k \in {"file", "pipe"}}
-Envs == [pid : Pids, fds : Fds, names : NameSets, kinds : KindSeqs]
+(* addr: the address argument is an abstract name, or a filesystem path that holds a stale socket file - which the  *)
+(* service must leave alone exactly when it ignores the argument                                                  *)
+Envs == [pid : Pids, fds : Fds, names : NameSets, kinds : KindSeqs, addr : {"abs"}]
+        \cup [pid : {"match", "differ"}, fds : {"0", "1", "2"},
+              names : {[set |-> FALSE, v |-> <<>>], [set |-> TRUE, v |-> <<V, "x">>], [set |-> TRUE, v |-> <<"x", V>>]},
+              kinds : {<<"socket", "socket", "socket">>, <<"file", "socket", "socket">>}, addr : {"fs"}]
 
 ToNat(s) == CASE s = "1" -> 1 [] s = "2" -> 2 [] s = "3" -> 3 [] OTHER -> 0
 
@@ -43,7 +48,8 @@ TraceLog == ndJsonDeserialize("trace.ndjson")
 Ev(e) == l <= Len(TraceLog) /\ TraceLog[l].ev = e /\ l' = l + 1
 E == TraceLog[l]
 TraceInit == l = 1
-TCase == Ev("Case") /\ E.env \in Envs /\ E.answered = Select(E.env)
+TCase == /\ Ev("Case") /\ E.env \in Envs /\ E.answered = Select(E.env)
+         /\ (E.env.addr = "fs" => (E.file_kept = (Select(E.env) # "address")))
 TraceSpec == TraceInit /\ [][TCase]_l
 ASSUME TLCSet(1, 0)
 HighWater == /\ IF l > TLCGet(1) THEN TLCSet(1, l) ELSE TRUE
